@@ -8,6 +8,7 @@
 #include <cpc_sketch.hpp>
 #include <cpc_union.hpp>
 #include <binomial_bounds.hpp>
+#include <icon_estimator.hpp>
 #include "vtrace.hpp"
 
 using namespace datasketches;
@@ -39,6 +40,25 @@ static void grid(vt::Rng& g, long points) {
       for (unsigned k = 1; k <= 3; k++) { lb.push_back(binomial_bounds::get_lower_bound(c, th, k)); ub.push_back(binomial_bounds::get_upper_bound(c, th, k)); }
       Ev("BB").d("count", (double)c).b("thetaOne", th == 1.0).d("est", (double)c / th).dl("lb", lb).dl("ub", ub).emit();
       emitted++;
+    }
+  }
+  // ICON estimator (CPC merged form) as a function of (lg_k, C): dense sweep in C, compared with an independent
+  // evaluation of its published definition: the n for which the expected number of coupons
+  // E[C](n) = sum_j k (1 - (1 - 2^-(j+1)/k)^n) equals C (bisection in doubles)
+  for (int lgk = 4; lgk <= 13; lgk++) {
+    const double k = (double)(1u << lgk);
+    auto expected = [&](double n) { double e = 0; for (int j = 0; j < 64; j++) { double q = std::ldexp(1.0, -(j + 1)) / k; e += k * (-std::expm1(n * std::log1p(-q))); } return e; };
+    uint32_t step = std::max(1u, (1u << lgk) / 64);
+    bool first = true;
+    for (uint32_t c = 0; c <= 12u * (1u << lgk); c += (c < 64 ? 1 : step)) {
+      double est = compute_icon_estimate((uint8_t)lgk, c);
+      double lo = 0, hi = 1e9;
+      for (int it = 0; it < 200; it++) { double mid = 0.5 * (lo + hi); if (expected(mid) < (double)c) lo = mid; else hi = mid; }
+      double exact = 0.5 * (lo + hi);
+      long long dev = c == 0 ? (long long)std::llround(est * 1e6) : (long long)std::llround(1e6 * (est - exact) / exact);
+      if (dev > 2000000000LL) dev = 2000000000LL; if (dev < -2000000000LL) dev = -2000000000LL;
+      Ev("ICON").i("lgk", lgk).i("c", c).b("first", first).d("est", est).d("cD", (double)c).i("devPpm", dev).emit();
+      first = false;
     }
   }
   // invalid arguments must be refused
@@ -99,11 +119,14 @@ int main(int argc, char** argv) {
   else {
     std::string fam = vt::arg(argc, argv, "--family", "theta");
     long T = vt::argl(argc, argv, "--T", 100);
-    int lgk0 = (int)vt::argl(argc, argv, "--lgk0", 8), lgk1 = (int)vt::argl(argc, argv, "--lgk1", 10);
+    // --lgks "8,10,12"  --mults "0.5,2,16,100" (n = mult * k)
+    auto split = [](const std::string& str) { std::vector<double> v; size_t p = 0; while (p < str.size()) { size_t q = str.find(',', p); if (q == std::string::npos) q = str.size(); v.push_back(atof(str.substr(p, q - p).c_str())); p = q + 1; } return v; };
+    std::vector<double> lgks = split(vt::arg(argc, argv, "--lgks", "8,9,10"));
+    std::vector<double> mults = split(vt::arg(argc, argv, "--mults", "0.5,2,16,100"));
     uint64_t next_key = (g.next() >> 20) << 20;
-    for (int lgk = lgk0; lgk <= lgk1; lgk++) {
-      long k = 1L << lgk;
-      for (long n : {k / 2, 2 * k, 16 * k, 100 * k}) cell(fam, lgk, n, T, next_key);
+    for (double lg : lgks) {
+      long k = 1L << (int)lg;
+      for (double m : mults) cell(fam, (int)lg, (long)(m * k), T, next_key);
     }
   }
   vt::close_out();
